@@ -17,6 +17,9 @@ Definition run_line (line : string) : string :=
     end
   else
   match read_ast line with
-  | Some a => show_ast (optimize_tree mech_numops true optimizer_default a)
+  | Some a =>
+      let o := optimize_tree mech_numops true optimizer_default a in
+      (* undefined constant arithmetic anywhere in the raw or the rewritten tree: the implementation's fold is compiler-defined *)
+      if orb (has_ub_site mech_numops a) (has_ub_site mech_numops o) then "UBFOLD" else show_ast o
   | None => "UNREADABLE"
   end.
